@@ -246,7 +246,9 @@ def coq_rng(t):
 def coq_odiag(rec):
     d = rec["d"]
     val = "None" if rec["value"] is None else "(Some (%s, %s))" % (coq_bytes(rec["value"][0]), coq_bytes(rec["value"][1]))
-    msg = (d["file"] + "|" + d["message"]).encode()
+    # two different entities may carry textually identical diagnostics (two void methods of one file): the entity
+    # is part of a diagnostic's identity; sibling nodes of ONE receiver (duplicate-sibling-entity) share it
+    msg = (d["file"] + "|" + rec["entity"][0] + " " + rec["entity"][1] + "|" + d["message"]).encode()
     verb = None
     if d["code"] in ("annotation-value-invalid", "unsupported-feature"):
         m = re.match(r"(?:Invalid HTTP verb|HTTP verb) '([^']*)'", d["message"])
@@ -315,11 +317,11 @@ def evaluate(projects, outs, layouts, tag):
                                              coq_list(impl.get(r["name"], []))))
             body += "Definition recv_%d : list (route * layout * list (nat * nat * rng)) := [\n%s].\n" % (k, ";\n".join(rows))
             body += ("Definition o_%d := Eval vm_compute in map prop_C18_diag od_%d.\nPrint o_%d.\n"
-                     "Definition l_%d := Eval vm_compute in [bool_n (prop_C18_list od_%d); bool_n (prop_C18_text text_%d); "
+                     "Definition l_%d := Eval vm_compute in [bool_n (prop_C18_list od_%d); bool_n (prop_C18_text_tree tree_%d text_%d); "
                      "bool_n (str_eqb (error_text tree_%d) text_%d)].\nPrint l_%d.\n"
                      "Definition c_%d := Eval vm_compute in map (fun x => let '(r, ly, im) := x in "
                      "bool_n (match validate r with VDiags _ => mset_eqb ranged_eqb (ranged r ly) im | _ => true end)) recv_%d.\n"
-                     "Print c_%d.\n") % ((k,) * 12)
+                     "Print c_%d.\n") % ((k,) * 13)
             names.append((k, od))
         o = run_coq_file(PROP, "%s_%d" % (tag, lo), body)
         for k, od in names:
@@ -357,6 +359,67 @@ def classify_tree(tree):
             cls.add("repeated-route-conflict")
     go(tree, False)
     return cls
+
+
+def clause_of(rec, o):
+    """Which clause of the oracle failed: a list/text duplicate, or prop_C18_diag number o on a diagnostic code."""
+    if isinstance(o, str):
+        return o
+    return ("diag", o, rec["d"]["code"] if rec else None)
+
+
+def project_failures(pr, out, rs):
+    """The oracle failures of one evaluated project that no recorded class explains: [(rec or None, o)]."""
+    cls = classify_tree(out.get("tree") or [])
+    fails = []
+    for rec, o in zip(rs["od"], rs["oracle"]):
+        d = rec["d"]
+        if o == 0:
+            continue
+        if (d["code"] == "receiver-return-values-invalid-signature" and "found void" in d["message"]
+                and (d["start_line"], d["start_col"], d["end_line"], d["end_col"]) == (0, 0, 0, 0) and o == 4):
+            continue
+        fails.append((rec, o))
+    list_ok, text_ok, _ = rs["lists"]
+    if not list_ok and "repeated-route-conflict" not in cls:
+        fails.append((None, "duplicate diagnostic in the list"))
+    if not text_ok and not any(c in cls for c in ("entity-per-error-diagnostic", "children-printed-under-parent")):
+        fails.append((None, "duplicate line in the error text"))
+    return fails
+
+
+def shrink_project(pr, clause, workdir, budget=24):
+    """Delta debugging over the routes: keep a sub-project only if the SAME oracle clause still fails on it."""
+    def test(routes):
+        used = set(r["ctl"] for r in routes)
+        cand = {"controllers": [c for c in pr["controllers"] if c["name"] in used], "routes": routes}
+        outs, lays = run_projects([cand], workdir)
+        if "tree" not in outs[0]:
+            return False
+        rs = evaluate([cand], outs, lays, "shrink")[0]
+        return any(clause_of(rec, o) == clause for (rec, o) in project_failures(cand, outs[0], rs))
+
+    items = list(pr["routes"])
+    n = 2
+    while len(items) >= 2 and budget > 0:
+        chunk = max(1, len(items) // n)
+        reduced = False
+        for i in range(0, len(items), chunk):
+            cand = items[:i] + items[i + chunk:]
+            if not cand:
+                continue
+            budget -= 1
+            if test(cand):
+                items, n, reduced = cand, max(n - 1, 2), True
+                break
+            if budget <= 0:
+                break
+        if not reduced:
+            if chunk == 1:
+                break
+            n = min(len(items), n * 2)
+    used = set(r["ctl"] for r in items)
+    return {"controllers": [c for c in pr["controllers"] if c["name"] in used], "routes": items}
 
 
 def known_index():
@@ -457,7 +520,8 @@ def main():
                 seen_d = {}
                 for rec in rs["od"]:
                     d = rec["d"]
-                    key_ = (d["code"], d["severity"], d["file"], d["start_line"], d["start_col"], d["end_line"], d["end_col"], d["message"])
+                    key_ = (rec["entity"], d["code"], d["severity"], d["file"], d["start_line"], d["start_col"], d["end_line"],
+                            d["end_col"], d["message"])
                     if key_ in seen_d:
                         dup = rec
                         break
@@ -495,12 +559,7 @@ def main():
                            "implementation_output": {"tree": outs[k].get("tree"), "error_text": outs[k].get("error_text")},
                            "claim": KNOWN_CLASSES[c], "note": "this class is not listed in known_findings.json"})
     for (k, rec, o) in fails[:3]:
-        pr = projects[k]
-        if rec is not None:         # shrink to the receiver the diagnostic belongs to
-            name = rec["entity"][1]
-            rs_ = [r for r in pr["routes"] if r["name"] == name] or pr["routes"][:1]
-            ctl = [c for c in pr["controllers"] if c["name"] == rs_[0]["ctl"]]
-            pr = {"controllers": ctl, "routes": rs_}
+        pr = shrink_project(projects[k], clause_of(rec, o), workdir + "_shr") if k < len(projects) else projects[k]
         res.violation({"kind": "property-fails-on-implementation", "input": strip_project(pr),
                        "diagnostic": rec["d"] if rec else None, "oracle": o,
                        "claim": "prop_C18_diag: 1 file, 2 start after end, 3 outside the file, 4 outside the construct, "
